@@ -19,7 +19,7 @@ PROP = "C15"
 LEVEL = "exploration"
 RUNS = {"quick": 3000, "thorough": 200000}
 TIME_CAP = {"quick": 150, "thorough": 1500}
-RULE = ("1-4 generated config texts (<= 25 classes, depth <= 3, inheritance, re-opening, forward declarations, delete, +=) x load order x entry point "
+RULE = ("1-4 generated config texts (<= 25 classes, depth <= 3, inheritance, re-opening, forward declarations, delete, a deleted name defined again, +=) x load order x entry point "
         "(parser as the CLI uses it, configparse__, sqfvm_load_config) x probes after every load (all existing paths, missing and deleted names, own "
         "entries by index); non-trivial when at least one class inherits and at least two loads or one delete/+=/re-open occur; distinct by hash of "
         "(tree shape with kinds of items, entry points, number of loads)")
@@ -104,10 +104,9 @@ def apply_items(items, node, strict):
                     if b is None or b is c:
                         raise Unfixed("base not visible")
                     c.base = b
-                if e is None:
-                    node.entries.append([name, "class", c])
-                else:
-                    e[1], e[2] = "class", c
+                if e is not None:
+                    node.entries.remove(e)      # a name defined again after `delete` is declared where it is defined again
+                node.entries.append([name, "class", c])
             else:
                 c = e[2]
                 if base:
@@ -128,6 +127,9 @@ def apply_items(items, node, strict):
             e = node.own(name)
             if e is not None and e[1] == "class":
                 raise Unfixed("value over class")
+            if e is not None and e[1] == "deleted":
+                node.entries.remove(e)
+                e = None
             if e is None:
                 node.entries.append([name, "value", it[2]])
             else:
@@ -257,20 +259,26 @@ def gen_body(rng, node, depth, budget, opts):
                 it[3] = gen_body(rng, c, depth + 1, budget, opts)
             else:
                 free = [x for x in CLASSES if node.own(x) is None]
-                if not free:
+                # a name this class deleted earlier (same body or an earlier load) may be defined again
+                gone = [x for x in CLASSES if node.own(x) is not None and node.own(x)[1] == "deleted"]
+                readd = bool(gone) and rng.random() < 0.6
+                if not free and not readd:
                     continue
-                name = rng.choice(free)
+                name = rng.choice(gone if readd else free)
                 vis = visible_names(node)
                 base = rng.choice(vis) if vis and rng.random() < opts["inherit"] else None
                 # a nested class named like its base in an outer scope: class X : X
                 outer_same = [v for v in vis if v in free]
-                if outer_same and depth > 0 and rng.random() < 0.25:
+                if outer_same and depth > 0 and not readd and rng.random() < 0.25:
                     name = base = rng.choice(outer_same)
                 c = Node(name, node)
                 if base:
                     c.base = visible_class(node, base)
-                    if c.base is None:
+                    if c.base is None or c.base is c:
                         base = None
+                        c.base = None
+                if readd:
+                    node.entries.remove(node.own(name))
                 node.entries.append([name, "class", c])
                 it = ["class", name, base, []]
                 items.append(it)
@@ -299,12 +307,15 @@ def gen_body(rng, node, depth, budget, opts):
         else:
             if depth == 0:
                 continue        # the grammar has no value entries at file level
-            cands = [x for x in VALUES if node.own(x) is None or node.own(x)[1] == "value"]
+            cands = [x for x in VALUES if node.own(x) is None or node.own(x)[1] in ("value", "deleted")]
             if not cands:
                 continue
             name = rng.choice(cands)
             v = gen_value(rng)
             e = node.own(name)
+            if e is not None and e[1] == "deleted":
+                node.entries.remove(e)
+                e = None
             if e is None:
                 node.entries.append([name, "value", v])
             else:
